@@ -24,11 +24,12 @@ type step struct {
 }
 
 type scriptIn struct {
-	Mode  string `json:"mode"`
-	W     int    `json:"w"`
-	B     int    `json:"b"`
-	Bufs  int    `json:"bufs"`
-	Steps []step `json:"steps"`
+	Mode  string   `json:"mode"`
+	W     int      `json:"w"`
+	B     int      `json:"b"`
+	Bufs  int      `json:"bufs"`
+	Steps []step   `json:"steps"`
+	Kinds []string `json:"kinds,omitempty"` // export information from the model (which state-preserving calls occur)
 }
 
 type pendingOpen struct {
@@ -53,6 +54,16 @@ func waitUntil(d time.Duration, pred func() bool) bool {
 	return true
 }
 
+// blockedCall is a Read or Write issued without a deadline; it may stay blocked.
+type blockedCall struct {
+	done chan struct{}
+	res  callResult
+	buf  []byte
+	k    int
+}
+
+func (b *blockedCall) finished() bool { return isClosedChan(b.done) }
+
 type scriptRun struct {
 	r       *recorder
 	p       *pair
@@ -60,6 +71,118 @@ type scriptRun struct {
 	closed  [2]map[int]bool // locally closed by the script
 	pend    [2]map[int]*pendingOpen
 	wpos    [2]map[int]int
+	bw      [2]map[int]*blockedCall // Write in progress (wstart .. wend)
+	br      [2]map[int]*blockedCall // Read in progress (rstart .. rend)
+}
+
+// waitBlockedOrDone returns when the call has returned or is observably blocked:
+// not returned and no new message written by its side for a while.
+func (x *scriptRun) waitBlockedOrDone(e int, b *blockedCall) {
+	start := time.Now()
+	last := x.p.l.dir[e].sent()
+	lastChange := start
+	for {
+		if b.finished() {
+			return
+		}
+		now := time.Now()
+		if n := x.p.l.dir[e].sent(); n != last {
+			last, lastChange = n, now
+		}
+		if now.Sub(start) >= 3*time.Millisecond && now.Sub(lastChange) >= 2*time.Millisecond {
+			return
+		}
+		if now.Sub(start) > opWatchdog {
+			return
+		}
+		time.Sleep(100 * time.Microsecond)
+	}
+}
+
+// settleCalls gives calls in progress on (e, s) a moment to return after an event that releases them.
+func (x *scriptRun) settleCalls(e, s int) {
+	for _, b := range []*blockedCall{x.bw[e][s], x.br[e][s]} {
+		if b != nil {
+			waitUntil(5*time.Millisecond, b.finished)
+		}
+	}
+}
+
+func (x *scriptRun) wstart(e, s, n int) {
+	st := x.streams[e][s]
+	data := payload(e, s, x.wpos[e][s], n)
+	b := &blockedCall{done: make(chan struct{})}
+	x.bw[e][s] = b
+	x.r.add(map[string]any{"ev": "Call", "e": e, "op": "write", "s": s, "k": n, "d": ints(data), "blk": true, "t": nowMs()})
+	go func() {
+		k, err := st.Write(data)
+		b.res = callResult{n: k, err: err}
+		close(b.done)
+	}()
+	x.waitBlockedOrDone(e, b)
+}
+
+// wend records the return of a Write in progress; false if it has not returned within wait.
+func (x *scriptRun) wend(e, s int, wait time.Duration) bool {
+	b := x.bw[e][s]
+	if !waitUntil(wait, b.finished) {
+		return false
+	}
+	x.wpos[e][s] += b.res.n
+	x.r.add(map[string]any{"ev": "Ret", "e": e, "op": "write", "s": s, "sid": 0, "k": 0, "n": b.res.n,
+		"d": []int{}, "err": errKind(b.res.err), "blk": true, "t": nowMs()})
+	delete(x.bw[e], s)
+	return true
+}
+
+func (x *scriptRun) rstart(e, s, k int) {
+	st := x.streams[e][s]
+	b := &blockedCall{done: make(chan struct{}), buf: make([]byte, k), k: k}
+	x.br[e][s] = b
+	x.r.add(map[string]any{"ev": "Call", "e": e, "op": "read", "s": s, "k": k, "d": []int{}, "blk": true, "t": nowMs()})
+	go func() {
+		c, err := st.Read(b.buf)
+		b.res = callResult{n: c, err: err}
+		close(b.done)
+	}()
+	x.waitBlockedOrDone(e, b)
+}
+
+func (x *scriptRun) rend(e, s int, wait time.Duration) bool {
+	b := x.br[e][s]
+	if !waitUntil(wait, b.finished) {
+		return false
+	}
+	x.r.add(map[string]any{"ev": "Ret", "e": e, "op": "read", "s": s, "sid": 0, "k": b.k, "n": b.res.n,
+		"d": ints(b.buf[:b.res.n]), "err": errKind(b.res.err), "blk": true, "t": nowMs()})
+	delete(x.br[e], s)
+	return true
+}
+
+// setDeadline: mode 0 clear, 1 past, 2 far future, 3 near future that is then allowed to pass.
+func (x *scriptRun) setDeadline(e, s int, op string, mode int) {
+	st := x.streams[e][s]
+	var dl time.Time
+	switch mode {
+	case 1:
+		dl = time.Now().Add(-time.Second)
+	case 2:
+		dl = time.Now().Add(time.Hour)
+	case 3:
+		dl = time.Now().Add(2 * time.Millisecond)
+	}
+	res := watchdog(opWatchdog, func() callResult {
+		if op == "setwd" {
+			return callResult{err: st.SetWriteDeadline(dl)}
+		}
+		return callResult{err: st.SetReadDeadline(dl)}
+	})
+	if mode == 3 {
+		time.Sleep(time.Until(dl) + 3*time.Millisecond)
+	}
+	x.r.add(map[string]any{"ev": "Ret", "e": e, "op": op, "s": s, "sid": 0, "k": mode, "n": 0,
+		"d": []int{}, "err": kindOf(res), "t": nowMs()})
+	x.settleCalls(e, s)
 }
 
 func (x *scriptRun) skip(st step, why string) {
@@ -168,6 +291,7 @@ func (x *scriptRun) closeOp(e, s int, op string) {
 	}
 	x.r.add(map[string]any{"ev": "Ret", "e": e, "op": op, "s": s, "sid": 0, "k": 0, "n": 0,
 		"d": []int{}, "err": kindOf(res), "t": nowMs()})
+	x.settleCalls(e, s)
 }
 
 // recv delivers the oldest message in flight towards endpoint e.
@@ -218,6 +342,8 @@ func runScript(cid string, in scriptIn) *recorder {
 		x.closed[e] = map[int]bool{}
 		x.pend[e] = map[int]*pendingOpen{}
 		x.wpos[e] = map[int]int{}
+		x.bw[e] = map[int]*blockedCall{}
+		x.br[e] = map[int]*blockedCall{}
 	}
 	for _, st := range in.Steps {
 		e := st.E
@@ -244,16 +370,50 @@ func runScript(cid string, in scriptIn) *recorder {
 			}
 		case "accept":
 			x.accept(e)
-		case "write", "read", "cw", "close":
+		case "write", "read", "cw", "close", "wstart", "wend", "rstart", "rend", "setwd", "setrd":
 			if x.streams[e][st.S] == nil {
 				x.skip(st, "stream not held")
 				continue
 			}
 			switch st.Op {
 			case "write":
-				x.write(e, st.S, st.N)
+				if x.bw[e][st.S] != nil {
+					x.skip(st, "write in progress")
+				} else {
+					x.write(e, st.S, st.N)
+				}
 			case "read":
-				x.read(e, st.S, st.N)
+				if x.br[e][st.S] != nil {
+					x.skip(st, "read in progress")
+				} else {
+					x.read(e, st.S, st.N)
+				}
+			case "wstart":
+				if x.bw[e][st.S] != nil {
+					x.skip(st, "write in progress")
+				} else {
+					x.wstart(e, st.S, st.N)
+				}
+			case "wend":
+				if x.bw[e][st.S] == nil {
+					x.skip(st, "no write in progress")
+				} else if !x.wend(e, st.S, 300*time.Millisecond) {
+					x.skip(st, "write still blocked")
+				}
+			case "rstart":
+				if x.br[e][st.S] != nil {
+					x.skip(st, "read in progress")
+				} else {
+					x.rstart(e, st.S, st.N)
+				}
+			case "rend":
+				if x.br[e][st.S] == nil {
+					x.skip(st, "no read in progress")
+				} else if !x.rend(e, st.S, 300*time.Millisecond) {
+					x.skip(st, "read still blocked")
+				}
+			case "setwd", "setrd":
+				x.setDeadline(e, st.S, st.Op, st.N)
 			default:
 				x.closeOp(e, st.S, st.Op)
 			}
@@ -270,6 +430,21 @@ func runScript(cid string, in scriptIn) *recorder {
 	// open, and read every stream still open to its end.
 	r.add(map[string]any{"ev": "Final", "t": nowMs()})
 	x.deliverAll()
+	// Writes still in progress: let the peer drain so that they can complete.
+	for e := 0; e < 2; e++ {
+		for _, s := range sortedCalls(x.bw[e]) {
+			deadline := time.Now().Add(3 * time.Second)
+			for !x.wend(e, s, time.Millisecond) && time.Now().Before(deadline) {
+				if x.streams[1-e][s] == nil || x.closed[1-e][s] || x.br[1-e][s] != nil {
+					break
+				}
+				if k := x.read(1-e, s, 8); k != "" && k != "timeout" {
+					break
+				}
+				x.deliverAll()
+			}
+		}
+	}
 	for e := 0; e < 2; e++ {
 		for _, po := range sortedPend(x.pend[e]) {
 			if x.finishOpen(e, po, 5*time.Millisecond) {
@@ -289,12 +464,27 @@ func runScript(cid string, in scriptIn) *recorder {
 			if !x.closed[e][s] {
 				x.closeOp(e, s, "cw")
 			}
+			if x.bw[e][s] != nil && !x.wend(e, s, opWatchdog) { // released by the close-write
+				x.r.add(map[string]any{"ev": "Ret", "e": e, "op": "write", "s": s, "sid": 0, "k": 0, "n": 0,
+					"d": []int{}, "err": "watchdog", "blk": true, "t": nowMs()})
+			}
 		}
 	}
 	x.deliverAll()
+	// Reads still in progress are released by the peer's close-write (data or EOF).
+	stuck := [2]map[int]bool{{}, {}}
+	for e := 0; e < 2; e++ {
+		for _, s := range sortedCalls(x.br[e]) {
+			if !x.rend(e, s, opWatchdog) {
+				x.r.add(map[string]any{"ev": "Ret", "e": e, "op": "read", "s": s, "sid": 0, "k": 0, "n": 0,
+					"d": []int{}, "err": "watchdog", "blk": true, "t": nowMs()})
+				stuck[e][s] = true
+			}
+		}
+	}
 	for e := 0; e < 2; e++ {
 		for _, s := range sortedKeys(x.streams[e]) {
-			if x.closed[e][s] {
+			if x.closed[e][s] || stuck[e][s] {
 				continue
 			}
 			deadline := time.Now().Add(3 * time.Second)
